@@ -3,7 +3,7 @@ import vpl
 from concurrent.futures import ThreadPoolExecutor
 
 LEVEL = "proof"
-LIBS = ["PowmLemmas.vo", "VtmfLemmas.vo", "TmcgLemmas.vo"]
+LIBS = ["PowmLemmas.vo", "VtmfLemmas.vo", "VtmfCount.vo", "TmcgLemmas.vo"]
 
 def chunks(lst, k):
     n = max(1, (len(lst) + k - 1) // k)
@@ -51,7 +51,7 @@ def run(res, tier, seed, replay):
         "quadratic-residue encoding: the residuosity test of each player is an abstract oracle satisfying the algebra of a valid key "
         "(premises of C01_tmcg_open); that tmcg_mpz_qrmn_p computes it is checked by correspondence (Euler's criterion in the driver), "
         "key validity is C10's subject",
-        "'up to negligible probability' is made exact: a missing share gives (T + R*x) mod q if that is < 2^w, else the sentinel"]
+        "'up to negligible probability' is made exact: a missing share gives (T + R*x) mod q if that is < 2^w, else the sentinel; counting form proved (1 / 2^w-1 / q-2^w of the q residues R)"]
     vpl.proof_stage(res, LIBS)
     exe = vpl.build_harness("c01")
     drv = vpl.build_driver("C01")
